@@ -54,6 +54,10 @@ CANDIDATES = {
         'noise and envelope run too slowly (at 22050 Hz a tone is 20% flat)',
 }
 
+# repaired in /repo (fix commits e0b2cb9, ed48092; see known_findings.json): a recurrence is a violation
+REPAIRED = {'beeper:adjust:ImplSpanBook', 'beeper:adjust:ImplFirstDelayExempt', 'beeper:adjust:ImplSpanBook+ImplFirstDelayExempt',
+            'beeper:adjust:ImplSpanBook:hang'}
+
 
 def _mc(box, name, module, cfg):
     try:
@@ -111,7 +115,7 @@ def judge(rep, cases, wd, parts):
                 raise MachineryError('AudioCases: %s for %s' % (clause, describe(c, clause)))
             key = key_of(c, clause)
             what = describe(c, clause)
-            if key in CANDIDATES and os.environ.get('VERIF_E04_STRICT') != '1' and key not in rep.known:
+            if key in CANDIDATES and key not in REPAIRED and os.environ.get('VERIF_E04_STRICT') != '1' and key not in rep.known:
                 parts['cand'][key] += 1
                 parts['cand_ex'].setdefault(key, what)
                 continue
@@ -196,7 +200,7 @@ def run(tier):
         c = e['case']
         if isinstance(c, dict) and c.get('cls') == ['probe:diverging-span'] and e['exc'].startswith('Hang'):
             key = 'beeper:adjust:ImplSpanBook:hang'
-            if os.environ.get('VERIF_E04_STRICT') != '1' and key not in rep.known:
+            if key not in REPAIRED and os.environ.get('VERIF_E04_STRICT') != '1' and key not in rep.known:
                 parts['cand'][key] += 1
                 parts['cand_ex'].setdefault(key, e['exc'])
             else:
